@@ -863,18 +863,19 @@ def run_check(pid, tier, seed, replay=None):
         return 2
 
     # 1. proofs -----------------------------------------------------------------
-    if P.get("special") == "c12":
+    if True:
         serr = special.build_statics()
         if serr:
             path = vc.write_replay(pid, seed, "statics", [], {"property": pid, "broken": "static-storage scan of the sources / objects", "detail": serr})
             vc.log("VIOLATION property=%s replay=%s no-failing-input-found" % (pid, path))
             return 1
-    cq = vc.coq_phase(ctx, P["targets"])
+    cq = vc.coq_phase(ctx, P["targets"] + ["Tie_Statics.vo"])
     if cq.get("gen_error"):
         path = vc.write_replay(pid, seed, "gen", [], {"property": pid, "broken": "gen/dump.cpp against the current headers", "detail": cq["gen_error"]})
         vc.log("VIOLATION property=%s replay=%s no-failing-input-found" % (pid, path))
         return 1
     proof_failed = [t for t in cq["failed"] if t != "Extract.vo"]
+    statics_broken = "Tie_Statics.vo" in proof_failed
     if "Extract.vo" in cq["failed"]:
         vc.log(cq["log"][-3000:])
         vc.log("internal error: the model does not build")
@@ -985,11 +986,13 @@ def run_check(pid, tier, seed, replay=None):
             vc.log("replay: property %s FAILS on this input: %s" % (pid, f.get("why") or CLAUSE.get(f["code"], "")))
         for m in mismatches[:3]:
             vc.log("replay: model and implementation differ: case %s line %s: impl [%s] model [%s]" % (m[2], m[3], m[4], m[5]))
-        if not fails and not mismatches:
+        for c in crashes[:1]:
+            vc.log("replay: the library stopped on this input (exit %s): %s" % (c[2], c[3][-600:]))
+        if not fails and not mismatches and not crashes:
             vc.log("replay: the property holds on this input and the implementation agrees with the model")
-        if fails:
+        if fails or crashes:
             vc.log("VIOLATION property=%s replay=%s" % (pid, replay))
-        return 1 if fails else 0
+        return 1 if (fails or crashes) else 0
     if P.get("special"):
         runner = special.run_c12 if P["special"] == "c12" else special.run_c14
         # a broken proof obligation (e.g. the statics scan) makes the search for a
@@ -1018,6 +1021,30 @@ def run_check(pid, tier, seed, replay=None):
     if tier == "thorough" and pid in ("C05", "C06", "C07", "C20"):
         # complete small scope: every byte string up to length 4 over the parser's byte classes
         do_family("parser_enum", seed, 20000, "enum")
+
+    # state outside the objects: the single-object model is no longer a faithful reading,
+    # and the way such state shows is through other objects used at the same time - the
+    # same scripts with every case on its own thread, judged by the same oracles
+    if statics_broken and not fails and pid not in ("C12", "C14"):
+        for fam, weight in P["families"]:
+            lines = gen_family(fam, seed, max(20, int(600 * weight)))
+            if P.get("expand"):
+                continue
+            res_t = vc.run_script(ctx, "%s-%s-threads" % (fam, seed), lines, impl_mode="threads",
+                                  want_oracle=bool(codes), want_model=True)
+            cases_t, _o = vc.split_cases(lines)
+            for f in res_t["oracle_fails"]:
+                if f["code"] in codes and not match_known(pid, f, cases_t.get(f["case"]), res_t["oracle_fails"]):
+                    f = dict(f); f["why"] = (CLAUSE.get(f["code"], "") + " - when other terminals are used on other threads at the same time (replay: all cases of the script concurrently)")
+                    f["noshrink"] = True
+                    fails.append((fam, seed, f, lines[:400]))
+                    break
+            if not fails:
+                for (cid, k, la, lb) in res_t["mismatches"][:1]:
+                    fails.append((fam, seed, {"case": cid, "code": 0, "cfg": "-", "op": -1, "noshrink": True,
+                                              "why": "run concurrently with other objects on other threads, case %s produced [%s] where alone (and in the model) it produces [%s]" % (cid, la[:160], lb[:160])}, lines[:400]))
+            if fails:
+                break
 
     # widen once when a proof or the tie is broken but no failing input was found
     if (proof_failed or mismatches or crashes) and not fails and tier == "quick":
@@ -1051,7 +1078,11 @@ def run_check(pid, tier, seed, replay=None):
             "how_to_replay": "bin/check %s --replay <this file>" % pid})
         vc.log("VIOLATION property=%s replay=%s" % (pid, path))
         rc = 1
-    elif crashes and pid == "C07":
+    elif crashes:
+        # the library stopped on a generated, legal input (sanitizer report, abort,
+        # uncaught exception): whatever the property says about that input cannot hold.
+        # For C07 this is the property itself; for the others it is reported with the
+        # input as the failing one.
         # the sanitizer build stopped: undefined behaviour / crash on some input
         fam, sd, crc, cerr, lines_all, res = crashes[0]
         last = None
